@@ -256,6 +256,7 @@ func sortCallbacks(cs []*callback) (fns []func(*DB), err error) {
 	var (
 		names, sorted []string
 		sortCallback  func(*callback) error
+		resolving     = map[*callback]bool{}
 	)
 	sort.SliceStable(cs, func(i, j int) bool {
 		if cs[j].before == "*" && cs[i].before != "*" {
@@ -315,7 +316,14 @@ func sortCallbacks(cs []*callback) (fns []func(*DB), err error) {
 					after.before = c.name
 				}
 
-				if err := sortCallback(after); err != nil {
+				// callbacks that (transitively) require to run after each other can't be sorted
+				if resolving[c] {
+					return fmt.Errorf("conflicting callback %s with after %s", c.name, c.after)
+				}
+				resolving[c] = true
+				err := sortCallback(after)
+				delete(resolving, c)
+				if err != nil {
 					return err
 				}
 
